@@ -307,6 +307,10 @@ func vxTraceStatFork(on bool) {
 	
 }
 
+func vxTraceStatRule(tmpdir string) {
+	panic("vxTraceStatRule: environment-model function, not available in native replay")
+}
+
 func vxWalkExtra(path string) {
 	panic("vxWalkExtra: environment-model function, not available in native replay")
 }
